@@ -311,6 +311,18 @@ func modelClasses(c *ModelCase) (contended, afterRelease, afterDeath int) {
 
 var caseCounter int
 
+// aborted is set after harness trouble (including timeouts, which are no
+// verdicts): the run is reported as inconclusive (driver exit 2) and the
+// remaining cases are not executed.
+var aborted bool
+
+func abort(format string, args ...any) {
+	if !aborted {
+		ev.Inconclusive("C28 harness trouble: "+format, args...)
+	}
+	aborted = true
+}
+
 func caseRoot(base string) string {
 	caseCounter++
 	return filepath.Join(base, fmt.Sprintf("case-%d", caseCounter))
@@ -326,14 +338,17 @@ func TestModelWorkers(t *testing.T) {
 	defer drainPool()
 	ev.Check(t, rec, 25, 1000, func(rt *rapid.T) {
 		c := drawModelCase(rt)
+		if aborted {
+			return
+		}
 		root := caseRoot(base)
 		defer os.RemoveAll(root)
 		violation, _, err := runModel(c, root)
-		rec.Eval()
 		if err != nil {
-			ev.Inconclusive("C28 worker harness trouble: %v", err)
-			rt.Skip(err.Error())
+			abort("%v", err)
+			return
 		}
+		rec.Eval()
 		if violation != "" {
 			ev.Failf(rt, rec, c, "%s", violation)
 		}
@@ -764,12 +779,15 @@ func TestRacingProcesses(t *testing.T) {
 	base := t.TempDir()
 	ev.Check(t, rec, 8, 200, func(rt *rapid.T) {
 		c := drawRaceCase(rt)
-		violation, st, inconclusive, err := raceVerdict(c, base)
-		rec.Eval()
-		if err != nil {
-			ev.Inconclusive("C28 race harness trouble: %v", err)
-			rt.Skip(err.Error())
+		if aborted {
+			return
 		}
+		violation, st, inconclusive, err := raceVerdict(c, base)
+		if err != nil {
+			abort("%v", err)
+			return
+		}
+		rec.Eval()
 		if inconclusive != "" {
 			ev.Inconclusive("C28: %s", inconclusive)
 		}
